@@ -9,8 +9,12 @@ Transcription of testtools/testsuite.py lines 65-195.
   on what it takes out of the queue.
 * `ConcurrentTestSuite` (*suite* flavour): a worker drives its own `ThreadsafeForwardingResult` (the
   forwarder of `Conc.stepOp`) through its tests; the first raise abandons the rest (`PlaceHolder.run` has
-  no handler) and the `broken-runner` error holder is reported through the same forwarder; `queue.put(test)`
-  in `finally`.  Main: `start()` each, then `get · join` until no thread is registered; in the `except:`
+  no handler) and the `broken-runner` error holder is reported through the same forwarder;
+  `queue.put(threading.current_thread())` in `finally` - the worker hands back its own Thread object, the key under
+  which `run()` registered it (`Item.fin w`; a worker IS its position in what `make_tests` yields: the sub-suite object
+  may be unhashable, equal to another one or the very same object again - the model never looks at it).  A sub-suite that
+  is a stock `unittest.TestSuite` reads `result.shouldStop` - one more critical section of the forwarder - before each
+  element it holds (`Worker.polls`).  Main: `start()` each, then `get · join` until no thread is registered; in the `except:`
   clause `process_result.stop()` (a forwarder control section) for every registered worker, then re-raise.
 * `ConcurrentStreamTestSuite` (*stream* flavour): for each sub-suite MAIN registers the worker, calls
   `process_result.startTestRun()` itself - `ExtendedToStreamDecorator.startTestRun` first forwards (the
@@ -66,6 +70,8 @@ structure Worker where
   tests : List WTest
   boom : Bool
   faults : List Nat        -- suite flavour: this worker's calls on the target that raise
+  polls : Bool := false    -- suite flavour: the sub-suite is a stock `unittest.TestSuite`, whose `run()` reads `result.shouldStop`
+                           -- (the forwarder's property: `acquire · target.shouldStop · release`) before each test it holds
 deriving Repr, Inhabited
 
 inductive Cause where
@@ -96,6 +102,16 @@ def testsOps : Nat → List WTest → List Op
   | _, [] => []
   | j, t :: ts => testOps j t ++ testsOps (j + 1) ts
 
+/-- what a sub-suite does with its forwarder.  A stock `unittest.TestSuite` (`polls`) reads `result.shouldStop` before every
+element it holds - its tests and, if the run is to break, the element whose `run()` raises.  The value read is not modelled:
+it is taken to be `False` (the worker goes on); a worker that reads `True` leaves the loop and does a prefix of this. -/
+def testsOpsP (p : Bool) : Nat → List WTest → List Op
+  | _, [] => []
+  | j, t :: ts => (if p then [Op.ctl .shouldStop] else []) ++ testOps j t ++ testsOpsP p (j + 1) ts
+
+def workerOps (w : Worker) : List Op :=
+  testsOpsP w.polls 0 w.tests ++ (if w.polls && w.boom then [.ctl .shouldStop] else [])
+
 def brokenOps : List Op :=
   [.tags [] [], .startTest .broken, .outcome .error .broken, .stopTest .broken, .tags [] []]
 
@@ -106,7 +122,7 @@ deriving Repr
 
 /-- `_run_test` of ConcurrentTestSuite -/
 def suiteProg (wi : Nat) (w : Worker) : WProg :=
-  let r := sectionsAbort w.faults {} (testsOps 0 w.tests)
+  let r := sectionsAbort w.faults {} (workerOps w)
   if r.2.2 || w.boom then
     let b := sectionsAbort w.faults r.2.1 brokenOps
     { segs := (r.1 ++ b.1).map Seg.sec ++ [.put (.fin wi)], died := b.2.2 }
